@@ -20,7 +20,7 @@ struct C03 : Property
 	{
 		return "per run: one generated or mutated stream (<=~260 bytes; all token kinds, escapes, surrogates, multi-byte UTF-8, comments, number "
 		       "shapes, mixed-case literals, concatenated documents), one flag combination of STRICT/ALLOW_TRAILING/VALIDATE_UTF8, one depth limit, and a "
-		       "set of chunk schedules: all single cuts, seeded multi-cut partitions incl. zero-length chunks, byte-at-a-time. evaluations = runs (streams); "
+		       "set of chunk schedules: all single cuts, all pairs of cuts for streams of at most 24 bytes, seeded multi-cut partitions incl. zero-length chunks, byte-at-a-time. evaluations = runs (streams); "
 		       "steps.schedules counts delivery schedules. A run is non-trivial if at least one cut landed inside a token/escape/comment or inside a container "
 		       "and the parser answered 'continue' there; distinct = distinct sets of (lexical context of a resumed cut, flags, outcome) keys.";
 	}
@@ -93,6 +93,16 @@ struct C03 : Property
 			}
 			p.ops.push_back(o);
 		}
+		// (b') every PAIR of cut positions for short streams (state that is only wrong after two resumptions inside one token)
+		if (n <= 24)
+			for (size_t i = 0; i <= n; i++)
+				for (size_t j = i; j <= n; j++)
+				{
+					Op o;
+					o.kind = "sched";
+					o.a = {(int64_t)i, (int64_t)j};
+					p.ops.push_back(o);
+				}
 		// (c) byte-at-a-time
 		{
 			Op o;
